@@ -38,6 +38,9 @@ ASSUMPTIONS = [
     "numpy's sqrt/tan/** evaluate the mathematical functions they name",
 ]
 
+# the shipped models are evaluated through the registry's wrappers
+MEMO_FILES = ("src/nanite/model/residuals.py", "src/nanite/model/core.py")
+
 POWER_LAW_DEGREE = {  # from the statement of C11
     "hertz_para": Fraction(3, 2), "hertz_cone": Fraction(2),
     "hertz_pyr3s": Fraction(2),
@@ -64,6 +67,7 @@ class ModelEval:
         self.slice_store = None
         self.ret_on = self.ret_off = None
         self.early = []
+        self.limiters = []
         self.delta_uses = []
         self._run()
 
@@ -204,13 +208,20 @@ class ModelEval:
                 if self.root_def is None:
                     self.root_def = ("<inline>", 1, n)
             else:
-                raise Undecided(f"clipping of {norm(x)[:40]} in a model "
-                                "formula")
+                # a limiter on something other than the depth: the value
+                # passes through for the comparison with the documented
+                # formula, the limiter itself is reported
+                self.limiters.append(n)
+                return ev(x)
             if "<clip>" not in self.mask:
                 self.mask["<clip>"] = (ast.Name(id=self.root_def[0],
                                                 ctx=ast.Load()), "Gt",
                                        ast.Constant(value=0), n)
             return RF.sym("delta_c") if on else RF.const(0)
+        if x is None and short in ("clip", "maximum", "minimum", "fmax",
+                                   "fmin") and n.args:
+            self.limiters.append(n)
+            return ev(n.args[0])
         # a call of another function of the package: its piecewise value
         # with the arguments substituted
         if isinstance(n.func, ast.Name) and self.depth < 3:
@@ -418,6 +429,13 @@ def r2_off_contact(ctx):
                   f"{mod.relpath}: where the tip is not in contact the "
                   f"function returns {me.ret_off.canon()} instead of exactly "
                   "the baseline")
+        for lim in me.limiters:
+            ctx.fail(lim, f"{name}: limiter {norm(lim)[:50]}",
+                     f"{mod.relpath}: the model applies `{norm(lim)[:60]}` "
+                     f"to an intermediate quantity; the published formula "
+                     f"has no such limit, so wherever the limiter is "
+                     f"active (e.g. bounds given in the other order) the "
+                     f"function no longer evaluates the formula")
         for st_, val in me.early:
             ctx.check(val == RF.sym("baseline"), st_,
                       f"{name}: no-contact fast path returns the baseline",
@@ -543,6 +561,15 @@ def homogeneity_degrees(ctx):
                          "an opaque power)")
 
 
+def r4_registry_wrappers(ctx):
+    """`models_available[key].model(params, delta)` is how fits, plots and
+    the rating evaluate a shipped model (shared with C13-R1/R4)"""
+    from .. import fitclauses
+    from .c13 import r1_direction_wrapper
+    fitclauses.clause_default_wrappers(ctx)
+    r1_direction_wrapper(ctx)
+
+
 RULES = [
     ("C02-R1", "contact branch equals the documented formula exactly",
      r1_formula_agreement),
@@ -551,4 +578,7 @@ RULES = [
      r2_off_contact),
     ("C02-R3", "truncated-series coefficients equal Sneddon's Taylor "
      "coefficients (exact series reversion)", r3_series_coefficients),
+    ("C02-R4", "the registry evaluates a shipped model through stateless "
+     "default wrappers that hand every parameter value to the model "
+     "function", r4_registry_wrappers),
 ]
